@@ -503,15 +503,91 @@ Section PipelineStaticSatisfy.
   Qed.
 End PipelineStaticSatisfy.
 
-(* non-vacuity of the new hypotheses: on the two-rectangle example the DFS order is fine and refine returns *)
+(* non-vacuity of the new hypotheses: on the two-rectangle example the DFS order is fine and the whole solve (satisfy,
+   then refine from the state satisfy produced) returns *)
 Example pipeline_static_satisfy_example :
   let mk := cmp_node_pos_id [0%Z; 1%Z] (fun i => i) in
   let rs1 := [mkrect 0 4 0 2; mkrect 1 5 1 3] in
   exists cs, generateYConstraints mk 0 (0 + EXTRA_GAP) rs1 = Some cs /\ cs <> [] /\
              dfs_order_ok (posY (0 + EXTRA_GAP) rs1) [1; 1] cs /\
-             exists s1 s2, StaticModel.static_satisfy (StaticModel.static_init (mkvars (posY (0 + EXTRA_GAP) rs1) [1; 1]) (mkcons cs)) = VpscModel.Ok s1 /\
-                           StaticModel.static_refine s1 = VpscModel.Ok s2.
+             returns (posY (0 + EXTRA_GAP) rs1) [1; 1] cs.
 Proof.
   cbv zeta. eexists. split; [vm_compute; reflexivity|]. split; [discriminate|]. split; [vm_compute; reflexivity|].
-  eexists. eexists. split; vm_compute; reflexivity.
+  unfold returns. eexists. vm_compute. reflexivity.
 Qed.
+
+(* ------------------------------------------------------------------ premise (i) discharged: the constraint sets of
+   removeoverlaps are RANKED (every constraint goes upwards in the strict total order CmpNodePos), and on ranked graphs
+   Blocks::totalOrder is a repetition-free topological order within its recursion fuel (Vpsc/StaticDfs.v) *)
+From Adapt Require Vpsc.StaticDfs.
+
+Theorem static_satisfy_returns_ranked d w cs (rk : nat -> nat) :
+  length w = length d -> Forall (fun x => 0 < x) w ->
+  Forall (fun c => (cl c < length d)%nat /\ (cr c < length d)%nat) cs ->
+  Forall (fun c => (rk (cl c) < rk (cr c))%nat) cs -> (forall v, (rk v <= length d)%nat) ->
+  exists s1, StaticModel.static_satisfy (StaticModel.static_init (mkvars d w) (mkcons cs)) = VpscModel.Ok s1 /\
+             forall c, (c < length cs)%nat -> 0 <= VpscModel.slack_val (StaticModel.base s1) c.
+Proof.
+  intros Lw Pw Hr Rk Rn.
+  assert (Ln : length (mkvars d w) = length d) by (unfold mkvars; rewrite map_length, combine_length; lia).
+  destruct (StaticDfs.static_no_throw_on_ranked_dag (mkvars d w) (mkcons cs) rk (mkvars_wf d w Lw Pw) (mkcons_wf d w cs Lw Hr)) as [s1 [E A]].
+  - intros k Hk. unfold mkcons in Hk. apply in_map_iff in Hk. destruct Hk as [c [<- Hc]]. cbn [VpscSpec.cl VpscSpec.cr].
+    rewrite Forall_forall in Rk. exact (Rk c Hc).
+  - intros v. rewrite Ln. apply Rn.
+  - exists s1. split; [exact E|]. intros c Hc. apply A. unfold mkcons. rewrite map_length. exact Hc.
+Qed.
+
+Section PipelineStaticRefine.
+  Variable mklt : list Q -> nat -> nat -> bool.
+  Hypothesis mklt_strict : forall pos, strict (mklt pos).
+  Hypothesis mklt_total : forall pos, total_on (mklt pos) (length pos).
+  Hypothesis mklt_range : forall pos a b, mklt pos a b = true -> (a < length pos)%nat /\ (b < length pos)%nat.
+  Variables xB yB : Q.
+  Hypothesis xB_nonneg : 0 <= xB.
+  Hypothesis yB_nonneg : 0 <= yB.
+
+  (* Solver::satisfy returns on the constraint set of the last pass, every constraint satisfied exactly - unconditional *)
+  Theorem last_pass_satisfy_returns third rsl csl d w :
+    last_pass mklt xB yB third rsl csl d -> length w = length d -> Forall (fun x => 0 < x) w ->
+    exists s1, StaticModel.static_satisfy (StaticModel.static_init (mkvars d w) (mkcons csl)) = VpscModel.Ok s1 /\
+               forall c, (c < length csl)%nat -> 0 <= VpscModel.slack_val (StaticModel.base s1) c.
+  Proof.
+    intros LP Lw Pw.
+    assert (F : Forall (fun c => mklt d (cl c) (cr c) = true) csl).
+    { destruct third; destruct LP as [Hg ->].
+      - exact (proj1 (gen_acyclic_X mklt mklt_strict _ _ _ _ _ Hg)).
+      - exact (proj1 (gen_acyclic_Y mklt mklt_strict _ _ _ _ Hg)). }
+    set (rk := rank (mklt d) (length d)).
+    apply (static_satisfy_returns_ranked d w csl rk Lw Pw).
+    - rewrite Forall_forall in *. intros c Hc. exact (mklt_range _ _ _ (F c Hc)).
+    - rewrite Forall_forall in *. intros c Hc. specialize (F c Hc). cbv beta in F.
+      apply rank_lt; [apply mklt_strict | exact F | exact (proj1 (mklt_range _ _ _ F))].
+    - intros v. apply rank_le.
+  Qed.
+
+  (* removeoverlaps with the static solver model: no overlap; the ONLY remaining premise is that Solver::refine returns
+     from the state Solver::satisfy produced on the last pass (in which every constraint holds exactly) *)
+  Theorem pipeline_no_overlap_static_refine_only_partial rs fixed third r :
+    good_rects rs -> (Z.of_nat (length rs) <= 10000000)%Z ->
+    removeoverlaps mklt static_solve_fn xB yB rs fixed third = Some r ->
+    (forall rsl csl d s1, last_pass mklt xB yB third rsl csl d ->
+       StaticModel.static_satisfy (StaticModel.static_init (mkvars d (weights (length rs) fixed)) (mkcons csl)) = VpscModel.Ok s1 ->
+       (forall c, (c < length csl)%nat -> 0 <= VpscModel.slack_val (StaticModel.base s1) c) ->
+       exists s2, StaticModel.static_refine s1 = VpscModel.Ok s2) ->
+    no_overlap xB yB (ro_rects r).
+  Proof.
+    intros G Hn H Ref.
+    assert (eps0 : 0 <= SOLVER_EPS) by (unfold SOLVER_EPS, Qle; cbn; lia).
+    destruct (pipeline_chain_eps mklt mklt_strict mklt_total mklt_range xB yB xB_nonneg yB_nonneg
+                static_solve_fn SOLVER_EPS rs fixed third r eps0 static_solve_fn_length G H)
+      as (rsl & csl & d & LP & L & Ac & Rg & K).
+    cbv zeta in K. apply K; [|apply eps_bound; exact Hn].
+    assert (Ld : length d = length rs).
+    { destruct third; destruct LP as [_ ->]; unfold posX, posY; rewrite map_length; exact L. }
+    assert (Lw : length (weights (length rs) fixed) = length d) by (rewrite weights_length; congruence).
+    apply static_solve_fn_sat_eps; [exact Lw | exact Rg|].
+    destruct (last_pass_satisfy_returns third rsl csl d _ LP Lw (weights_pos _ _)) as [s1 [E1 A1]].
+    destruct (Ref rsl csl d s1 LP E1 A1) as [s2 E2].
+    exists s2. unfold static_run, StaticModel.static_solve. rewrite E1. cbn [VpscModel.bind]. exact E2.
+  Qed.
+End PipelineStaticRefine.
